@@ -208,6 +208,34 @@ def extremeMargin (tol2 : K) (a b : V3 K) : Bool :=
 
 end Extreme
 
+/-! ### Floating-point evaluation of the plane residual `(a×b)·p` (standard model)
+
+  `np.cross` and `np.dot` on 3-vectors, with one rounding after every arithmetic operation and one
+  for each coordinate of the inputs (the implementation receives the correctly rounded doubles of
+  the exact points).  `r i` is the rounding applied at operation site `i`; the sites may round
+  differently (round-to-nearest, a fused multiply-add that does not round a product, …) – the
+  theorems of `Props/C14.lean` only use `|r i x − x| ≤ u·|x|`.  Overflow/underflow is outside the
+  model. -/
+section FloatModel
+variable {K : Type} [Add K] [Sub K] [Mul K]
+
+def rndV (r : Nat → K → K) (i : Nat) (a : V3 K) : V3 K := ⟨r i a.x, r (i + 1) a.y, r (i + 2) a.z⟩
+
+def flCross (r : Nat → K → K) (a b : V3 K) : V3 K :=
+  ⟨r 2 (r 0 (a.y * b.z) - r 1 (a.z * b.y)),
+   r 5 (r 3 (a.z * b.x) - r 4 (a.x * b.z)),
+   r 8 (r 6 (a.x * b.y) - r 7 (a.y * b.x))⟩
+
+def flDot (r : Nat → K → K) (n p : V3 K) : K :=
+  r 13 (r 12 (r 9 (n.x * p.x) + r 10 (n.y * p.y)) + r 11 (n.z * p.z))
+
+/-- the number `point_within_gca` compares with its plane tolerance, as computed in floating
+    point from the exact points `a b p` -/
+def flResidual (r : Nat → K → K) (a b p : V3 K) : K :=
+  flDot r (flCross r (rndV r 14 a) (rndV r 17 b)) (rndV r 20 p)
+
+end FloatModel
+
 /-! ### Call sequences on one arc object (purity of the primitives)
 
   A caller hands the SAME array to several primitives one after the other.  In the model a
